@@ -2818,9 +2818,17 @@ func (ir *iteratorRecord) iterate(step func(Value)) {
 			step(value)
 		})
 		if ret != nil {
-			_ = tryFunc(func() {
-				ir.returnIter()
-			})
+			// unwinding for an interrupt or a stack overflow must not run script code
+			if asUncatchableException(ret) == nil {
+				ret1 := tryFunc(func() {
+					ir.returnIter()
+				})
+				// an exception thrown by return() is dropped in favour of the original one, but an
+				// interrupt or a stack overflow raised while it ran must still be delivered
+				if asUncatchableException(ret1) != nil {
+					panic(ret1)
+				}
+			}
 			panic(ret)
 		}
 	}
